@@ -256,3 +256,99 @@ def config_section(tier, seed):
                      '{pformat, pprint, cpprint (colour off), PrettyPrinter.pformat/pprint, pretty_repr} x end strings; compared with the model and with each other; '
                      'non-trivial = cases with both a changed default and an explicit argument'}
     return stats, mism, fails
+
+
+# ---------------------------------------------------------------------------------------------
+# long histories in ONE interpreter: many set_default_config calls, the same few argument combinations asked again and again
+# (whatever is remembered between calls - merged settings, contexts - must be the one for the defaults in force now)
+
+def history_chunk(args):
+    seed, n_hist, length = args
+    rng = random.Random(seed)
+    drv = _driver()
+    mism, fails = [], []
+    n = nt = 0
+    original = dict(PKG._default_config)
+    combos = [{}, {'width': 45}, {'indent': 2}, {'max_seq_len': 3, 'depth': 2}, {'sort_dict_keys': True}, {'ribbon_width': 20, 'width': 60}]
+    probe = VALUES[0]
+    for h in range(n_hist):
+        pp.set_default_config(**{k: v for k, v in original.items() if k != 'indent'})
+        sets = [{k: v for k, v in original.items() if k != 'indent'}]
+        my_combos = rng.sample(combos, rng.choice([1, 2, 3]))
+        for step in range(length):
+            if rng.random() < 0.5:
+                u = rand_explicit(rng, ORDER[1:], rng.choice([0.2, 0.5]))
+                d_try, _ = effective(sets + [u], {})
+                if not V.ribbon_ok(d_try['width'], d_try['ribbon_width']):
+                    continue
+                pp.set_default_config(**u)
+                sets.append(u)
+                continue
+            explicit = rng.choice(my_combos)
+            vi = rng.choice([0, 0, 4, 5])
+            value = VALUES[vi]
+            d_spec, e_spec = effective(sets, explicit)
+            if not V.ribbon_ok(e_spec['width'], e_spec['ribbon_width']):
+                continue
+            n += 1
+            if len(sets) > 3:
+                nt += 1
+            bad = None
+            try:
+                with warnings.catch_warnings():
+                    warnings.simplefilter('ignore')
+                    got = pp.pformat(value, **explicit)
+                    want = pp.pformat(value, **e_spec)
+                    s1 = io.StringIO()
+                    pp.pprint(value, stream=s1, end='', **explicit)
+                    via_class = pp.PrettyPrinter(**explicit).pformat(value)
+                    rep = repr(Registered(probe)) if not explicit else None
+                    rep_want = pp.pformat(Registered(probe), **d_spec) if not explicit else None
+                dflt = dict(pp.get_default_config())
+            except Exception as e:
+                bad = 'raises %s: %s' % (type(e).__name__, e)
+                got = want = None
+            if bad is None:
+                if got != want:
+                    bad = 'pformat(v, **given) != pformat(v, **effective settings after %d set_default_config calls)' % (len(sets) - 1)
+                elif s1.getvalue() != want:
+                    bad = 'pprint(v, **given) != pformat(v, **effective settings)'
+                elif via_class != want:
+                    bad = 'PrettyPrinter(**given).pformat(v) != pformat(v, **effective settings)'
+                elif rep != rep_want:
+                    bad = 'pretty_repr != pformat with the defaults in force'
+                elif dflt != d_spec:
+                    bad = 'get_default_config %r != what the set_default_config calls so far give %r' % (dflt, d_spec)
+            if bad:
+                if len(fails) < 3:
+                    fails.append({'kind': 'stale-settings-in-a-long-history', 'why': bad, 'history': sets[1:], 'explicit': explicit, 'value_index': vi,
+                                  'effective': e_spec, 'observed': (got or '')[:300], 'expected': (want or '')[:300]})
+                break
+            # the model on the same history (a sample: the request carries the whole history)
+            if rng.random() < 0.15:
+                g = drv.ask('(entry (%s) %s %s ())' % (' '.join(ex_sx(u) for u in sets), ex_sx(explicit), val_to_sx(value)))
+                exp = '(ok %s ' % DOCS.sx_str('pformat', got)
+                if not g.startswith(exp):
+                    mism.append({'case': (vi, sets[1:], explicit), 'impl': exp[:600], 'model': g[:600]})
+    PKG._default_config = dict(original)
+    return n, nt, mism, fails
+
+
+def history_section(tier, seed):
+    n_chunks = NCPU
+    n_hist = 6 if tier == 'quick' else 60
+    length = 60 if tier == 'quick' else 120
+    tot = nt = 0
+    mism, fails = [], []
+    with mp.Pool(n_chunks) as pool:
+        for a, b, mm, ff in pool.imap_unordered(history_chunk, [(seed * 1009 + i, n_hist, length) for i in range(n_chunks)]):
+            tot += a
+            nt += b
+            mism.extend(mm)
+            fails.extend(ff)
+    stats = {'evaluations': tot, 'distinct_nontrivial': nt, 'mismatches': len(mism), 'histories': n_chunks * n_hist, 'steps_per_history': length,
+             'rule': 'histories of %d steps in one interpreter without resets: set_default_config calls (random subsets of five settings) interleaved with '
+                     'pformat / pprint / PrettyPrinter / pretty_repr of a few recurring argument combinations; every observation must equal pformat with all six '
+                     'effective settings given explicitly (independent bookkeeping) and get_default_config must report the bookkeeping; a sample of the '
+                     'observations is also compared with the model on the whole history; non-trivial = observations after more than three default changes' % length}
+    return stats, mism, fails
